@@ -25,10 +25,10 @@ import logging
 import sys
 import threading
 from types import TracebackType
-from typing import Awaitable, Dict, List, Optional, Set, Tuple, Type, Union
+from typing import Awaitable, Dict, Iterable, List, Optional, Set, Tuple, Type, Union
 
 from ._cache import DNSCache
-from ._dns import DNSQuestion, DNSQuestionType
+from ._dns import DNSQuestion, DNSQuestionType, DNSRecord
 from ._engine import AsyncEngine
 from ._exceptions import (
     NamePartTooLongException,
@@ -470,6 +470,10 @@ class Zeroconf(QuietLogger):
         assert info.server_key is not None
         entries = self.registry.async_get_infos_server(info.server_key)
         broadcast_addresses = not bool(entries)
+        withdrawn: Set[DNSRecord] = {info.dns_pointer(), info.dns_service(), info.dns_text()}
+        if broadcast_addresses:
+            withdrawn.update(info.get_address_and_nsec_records())
+        self._async_remove_queued_answers(withdrawn)
         return asyncio.ensure_future(
             self._async_broadcast_service(info, _UNREGISTER_TIME, 0, broadcast_addresses)
         )
@@ -483,7 +487,18 @@ class Zeroconf(QuietLogger):
         for info in service_infos:
             self._add_broadcast_answer(out, info, 0)
         self.registry.async_remove(service_infos)
+        self._async_remove_queued_answers([record for record, _ in out.answers])
         return out
+
+    def _async_remove_queued_answers(self, records: Iterable[DNSRecord]) -> None:
+        """Remove withdrawn records from the outgoing queues.
+
+        An answer to an earlier query can wait in a queue for more than a
+        second; it must not be sent once the goodbye for it has gone out.
+        """
+        answers: Dict[DNSRecord, Set[DNSRecord]] = {record: set() for record in records}
+        for queue in (self.out_queue, self.out_delay_queue):
+            queue._remove_answers_from_queue(answers)  # pylint: disable=protected-access
 
     async def async_unregister_all_services(self) -> None:
         """Unregister all registered services.
